@@ -18,7 +18,7 @@ def main():
     rows = []
     for diff in sorted(glob.glob(os.path.join(ROOT, 'mutants', 'benign', '*.diff'))):
         files = set(re.findall(r'^\+\+\+ b/(\S+)', open(diff).read(), re.M))
-        props = sorted(p for p, fs in anchors.items() if files & set(fs))
+        props = sorted(p for p, fs in anchors.items() if not p.startswith('_') and files & set(fs))
         if not props:
             rows.append({'rewrite': os.path.basename(diff), 'props': [], 'note': 'touches no anchored file'})
             continue
